@@ -305,7 +305,7 @@ def clip_case(draw):
         ce = cs + k2 * step
     m_mode = draw(st.sampled_from(["zero", "grid", "exact_end", "exact_start", "negative"]))
     if m_mode == "zero":
-        m = 0.0
+        m = draw(st.sampled_from([0.0, 0.0, -0.0, 0]))
     elif m_mode == "grid":
         m = draw(st.integers(0, 40)) * step
     elif m_mode == "exact_end":
